@@ -863,7 +863,7 @@ func seqProxy(res *worker.Result, k *kase, tr truth, rng *rand.Rand) {
 	var c consumed
 	select {
 	case c = <-consumerDone:
-	case <-time.After(4 * time.Second):
+	case <-time.After(15 * time.Second):
 		blocked = true
 		res.Count("proxy_consumer_blocked", 1)
 		c.readErr = errors.New("consumer blocked in the proxy's pipe")
